@@ -6,8 +6,9 @@ M1  PER_MC(q).cfg  implementation-shaped trees: TreeSum, TreeMin, LeavesOK, PtrO
 M2  exact mode: operation sequences (exhaustive short ones + seeded long ones) executed on the real
     buffer with alpha=1, integer priorities, power-of-two batch sizes and stubbed variates k/8;
     leaves, roots, max priority, indices and weights are compared exactly by TLC (PER_Trace)
-M3  inexact mode: float priorities incl. tiny/huge/repeated, alpha in {0.3,0.6,1}, beta in
-    {0.4,0.7,1}, any batch size, variates at stratum ends (0, 1-2^-24) -> PERx_Trace
+M3  inexact mode: float priorities incl. tiny/huge/repeated, alpha in {0,0.3,0.6,1}, beta in
+    {0,0.4,0.7,1} (and omitted), any batch size (also above the current length), variates at stratum ends
+    (0, 1-2^-24), update_priorities fed with the containers / dtypes callers use -> PERx_Trace
 """
 from __future__ import annotations
 
@@ -35,6 +36,9 @@ CONSTANTS
 INVARIANT SizeOK
 CHECK_DEADLOCK FALSE
 """
+
+
+KINDS = ("vector", "dict", "image", "tuple", "scalar", "dscalar+h")
 
 
 def sig(mode):
@@ -67,7 +71,8 @@ def _gen_exact(rng, N, length, uden=8):
                 idxs[1] = idxs[0]                      # repeated index
             ops.append(("update", idxs, [rng.choice([1, 2, 3, 8, 100, 1000]) for _ in range(k)]))
         else:
-            Bs = [b for b in (1, 2, 4, 8) if b <= size]
+            # (batch sizes are not bounded by the current length: strata may share an index)
+            Bs = [b for b in (1, 2, 4, 8) if b <= size] + [b for b in (2, 4, 8) if size < b <= 2 * size][:1]
             B = rng.choice(Bs)
             ops.append(("sample", B, [rng.choice([0, 0, uden - 1, rng.randrange(uden)]) for _ in range(B)]))
     return ops
@@ -97,15 +102,16 @@ def run(ctx):
                     if a2:
                         ops.append(a2)
                         sz = min(N, size + a2[1])
-                    for B in [b for b in (1, 2, 4) if b <= sz]:
+                    for B in [b for b in (1, 2, 4) if b <= 2 * sz]:
                         for us in ([0] * B, [7] * B, [4] * B):
                             ops.append(("sample", B, us))
-                    traces.append(per.run_exact(N, ops, beta=rng.choice([1.0, 0.4, 0.7])))
+                    traces.append(per.run_exact(N, ops, beta=rng.choice([1.0, 0.4, 0.7]), kind=KINDS[len(traces) % len(KINDS)],
+                                                seed=ctx.seed + len(traces)))
                     ctx.case(("exact-small", N, str(ops)))
     for j in range(60 if quick else 600):
         N = rng.choice([1, 2, 3, 4, 5, 6, 7, 8, 9, 13, 16])
         ops = _gen_exact(rng, N, rng.randint(4, 25))
-        traces.append(per.run_exact(N, ops, beta=rng.choice([1.0, 0.4, 0.7]), kind=("vector", "dict")[j % 2]))
+        traces.append(per.run_exact(N, ops, beta=rng.choice([1.0, 0.4, 0.7]), kind=KINDS[j % len(KINDS)], seed=ctx.seed + j))
         ctx.case(("exact-long", N, str(ops)))
     ctx.sample({"exact_trace": {"cfg": traces[-1]["cfg"], "ev": traces[-1]["ev"][:3]}})
     ctx.validate("PER_Trace", EXACT_CFG, traces, sig=sig("exact"), what=what, chunk=300)
@@ -115,8 +121,8 @@ def run(ctx):
     hi = 1.0 - 2.0 ** -24
     for j in range(80 if quick else 800):
         N = rng.choice([1, 2, 3, 5, 6, 8, 11, 16, 33])
-        alpha = rng.choice([0.3, 0.6, 1.0])
-        beta = rng.choice([0.4, 0.7, 1.0, 0.0])        # 0.0: the lower end of the range, every weight is 1
+        alpha = rng.choice([0.3, 0.6, 1.0, 0.0])       # 0.0: no prioritisation, every stored priority is 1
+        beta = rng.choice([0.4, 0.7, 1.0, 0.0, 0.4])   # 0.0: the lower end of the range, every weight is 1
         ops = []
         size = 0
         for _ in range(rng.randint(4, 30)):
@@ -136,9 +142,9 @@ def run(ctx):
                 pris = [rng.choice([0.0, 1e-9, 1e-5, 0.1, rng.random(), rng.random() * 10, 1e4, 1e8]) for _ in range(k)]
                 ops.append(("update", idxs, pris))
             else:
-                B = rng.randint(1, size)
+                B = rng.randint(1, size) if rng.random() < 0.8 else rng.randint(size + 1, 2 * size + 1)
                 ops.append(("sample", B, [rng.choice([0.0, hi, 0.5, rng.random()]) for _ in range(B)]))
-        xtraces.append(per.run_inexact(N, alpha, beta, ops, seed=ctx.seed + j))
+        xtraces.append(per.run_inexact(N, alpha, beta, ops, kind=KINDS[j % len(KINDS)], seed=ctx.seed + j))
         ctx.case(("inexact", N, alpha, beta, str(ops)))
     ctx.sample({"inexact_trace": {"cfg": xtraces[0]["cfg"], "ev": xtraces[0]["ev"][:3]}})
     ctx.validate("PERx_Trace", INEXACT_CFG, xtraces, sig=sig("inexact"), what=what, chunk=400)
